@@ -221,7 +221,9 @@ class Oracle:
                     st["undecided"] += 1
                 if verdict in ("reject", "illformed"):
                     st["rejects"] += 1
-                    rec["failure"] = dict(kind="result-not-in-inferred-type", verdict=verdict, value=rec["run"].value[:400])
+                    rec["failure"] = dict(kind="result-not-in-inferred-type", verdict=verdict, value=rec["run"].value[:400],
+                                          lenient="(lenient 1)" in v, fnres="(fnres 1)" in v, nevertop="(nevertop 1)" in v,
+                                          never=rec["run"].tables.find("(types (union)") >= 0 and rec["run"].rtype == 0)
                 elif not wt:
                     st["illtyped_tuples"] += 1
                     rec["failure"] = dict(kind="ill-typed-tuple-in-result", value=rec["run"].value[:400])
@@ -335,6 +337,126 @@ def split_steps(src):
     return [s for s in steps if s.strip()]
 
 
+def split_top(body, sep=","):
+    parts, cur, depth, instr = [], [], 0, False
+    i = 0
+    while i < len(body):
+        c = body[i]
+        if instr:
+            cur.append(c)
+            if c == "\\" and i + 1 < len(body):
+                cur.append(body[i + 1]); i += 1
+            elif c == '"':
+                instr = False
+        elif c == '"':
+            instr = True; cur.append(c)
+        elif c in "([{":
+            depth += 1; cur.append(c)
+        elif c in ")]}":
+            depth -= 1; cur.append(c)
+        elif c == sep and depth == 0:
+            parts.append("".join(cur)); cur = []
+        else:
+            cur.append(c)
+        i += 1
+    parts.append("".join(cur))
+    return parts
+
+
+def canon_fields(src, order):
+    """every all-labelled tuple literal `[l: e, ..]` lists the labels of `order` first"""
+    out, i, n = [], 0, len(src)
+    instr = False
+    while i < n:
+        c = src[i]
+        if instr:
+            out.append(c)
+            if c == "\\" and i + 1 < n:
+                out.append(src[i + 1]); i += 1
+            elif c == '"':
+                instr = False
+            i += 1
+            continue
+        if c == '"':
+            instr = True; out.append(c); i += 1; continue
+        if c == "[":
+            j = balanced_end(src.replace("[", "(").replace("]", ")").replace("{", "(").replace("}", ")"), i)
+            inner = canon_fields(src[i + 1:j], order)
+            parts = split_top(inner)
+            labs = [re.match(r"^\s*([a-z_][A-Za-z0-9_]*[?]?[!]?)\s*:", p) for p in parts]
+            if len(parts) > 1 and all(labs):
+                key = lambda pl: order.index(pl[1].group(1)) if pl[1].group(1) in order else len(order)
+                parts = [p for p, _ in sorted(zip(parts, labs), key=key)]
+                inner = ",".join(" " + p.strip() for p in parts).strip()
+            out.append("[" + inner + "]")
+            i = j + 1
+            continue
+        out.append(c); i += 1
+    return "".join(out)
+
+
+def explode(src):
+    """a program ending in a tuple of observations `[o1, .., on]` (possibly inside `{ }`) -> one
+    program per observation"""
+    steps = split_steps(src)
+    if not steps:
+        return []
+    last = steps[-1].strip()
+    if last.startswith("{") and last.endswith("}"):
+        last = last[1:-1].strip()
+    if not (last.startswith("[") and last.endswith("]")):
+        return []
+    try:
+        if balanced_end(last.replace("[", "(").replace("]", ")").replace("{", "(").replace("}", ")"), 0) != len(last) - 1:
+            return []
+    except (ValueError, IndexError):
+        return []
+    parts = [p.strip() for p in split_top(last[1:-1]) if p.strip()]
+    if len(parts) < 2 or any(re.match(r"^[a-z_][A-Za-z0-9_]*\s*:", p) for p in parts):
+        return []
+    return [",\n".join(steps[:-1] + ["[" + p + "]"]) for p in parts]
+
+
+def prefixes(src):
+    """programs that stop early: after each term of each top-level step (latest first)"""
+    steps = split_steps(src)
+    out = []
+    for k, st in enumerate(steps):
+        if st.lstrip().startswith("'"):
+            continue
+        terms, cur, depth, instr = [], [], 0, False
+        for ch in st:
+            if ch == '"':
+                instr = not instr
+            if not instr and ch in "([{":
+                depth += 1
+            elif not instr and ch in ")]}":
+                depth -= 1
+            if not instr and depth == 0 and ch in " \n\t":
+                if cur:
+                    terms.append("".join(cur)); cur = []
+            else:
+                cur.append(ch)
+        if cur:
+            terms.append("".join(cur))
+        for j in range(1, len(terms) + 1):
+            if k == len(steps) - 1 and j == len(terms):
+                break
+            if terms[j - 1] in ("=", "~>"):
+                continue
+            out.append(",\n".join(steps[:k] + [" ".join(terms[:j])]))
+    return list(dict.fromkeys(out))[::-1]
+
+
+# symbolic signature -> id in known_findings.json (suppression is table-driven by its status)
+FINDING_IDS = {
+    "tail-call-arg": "F1", "union-to-generic": "F2", "nil-binder": "F27", "stale-narrowing": "F53",
+    "match-provenance": "F54", "recursive-binder": "F59",
+    "nil-through-type-test": "F13c01", "failed-match-binder": "C01-failed-match-binder", "tail-branch-never": "C01-tail-branch-never",
+    "unify-recursive-tail": "C01-unify-recursive-tail", "partial-position": "C01-partial-position",
+}
+
+
 class Classifier:
     """Decides whether a failing program is an instance of a known finding, by re-running
     VARIANTS of it on the real compiler (semantic signature), never by the source's provenance."""
@@ -350,14 +472,107 @@ class Classifier:
         return rec["status"] == "accepted" and rec["failure"] is not None
 
     def classify(self, src, mods, failure):
-        for fid, fn in (("F1", self.sig_f1), ("F2", self.sig_f2), ("F53", self.sig_f53),
-                        ("F54", self.sig_f54), ("F27", self.sig_f27)):
+        """-> sorted list of symbolic signature names explaining the failure, or None. A program
+        whose value is a tuple of independent observations is split into one program per
+        observation: every failing one must be explained."""
+        subs = explode(src)
+        if len(subs) >= 2:
+            recs = self.outcomes(subs, mods)
+            failing = [(s, r["failure"]) for s, r in zip(subs, recs) if self.fails(r)]
+            if failing:
+                names = set()
+                for s, f in failing[:5]:
+                    n = self.classify_one(s, mods, f)
+                    if n is None:
+                        return None
+                    names.add(n)
+                return sorted(names)
+        n = self.classify_one(src, mods, failure)
+        return [n] if n else None
+
+    def classify_one(self, src, mods, failure):
+
+        """-> symbolic signature name (see FINDING_IDS) or None"""
+        for name, fn in (("nil-binder", self.sig_f27), ("failed-match-binder", self.sig_failed_match), ("stale-narrowing", self.sig_f53),
+                         ("match-provenance", self.sig_f54), ("tail-call-arg", self.sig_f1),
+                         ("partial-position", self.sig_partial), ("nil-through-type-test", self.sig_f13),
+                         ("tail-branch-never", self.sig_tail_never), ("unify-recursive-tail", self.sig_unify_cycle),
+                         ("recursive-binder", self.sig_f59), ("union-to-generic", self.sig_f2)):
             try:
                 if fn(src, mods, failure):
-                    return fid
+                    return name
             except (ValueError, IndexError, KeyError):
                 pass
         return None
+
+    # ---- partial-position: a field access / partial pattern on a value of PARTIAL static type uses
+    # the field's position in the partial type. Signature: the program mentions a partial type or
+    # pattern, and the variant in which every all-labelled tuple literal lists the partials' labels
+    # FIRST (in the partials' order) does not fail.
+    PARTIAL_RE = re.compile(r"(?<![A-Za-z0-9_\]])[A-Z]?[A-Za-z0-9_]*\(\s*([a-z_][A-Za-z0-9_]*)\s*(?::[^(),]*|)((?:,\s*[a-z_][A-Za-z0-9_]*\s*(?::[^(),]*|))*)\)")
+
+    def sig_partial(self, src, mods, failure):
+        s0 = strip_strings(src)
+        order = []
+        for m in self.PARTIAL_RE.finditer(s0):
+            labs = [m.group(1)] + re.findall(r",\s*([a-z_][A-Za-z0-9_]*)", m.group(2) or "")
+            for l in labs:
+                if l not in order:
+                    order.append(l)
+        if not order:
+            return False
+        variant = canon_fields(src, order)
+        if variant == src:
+            return False
+        rec = self.outcomes([variant], mods)[0]
+        return rec["status"] == "accepted" and not rec["failure"]
+
+    # ---- nil-through-type-test (F13): nil passes a later `='T` test after an earlier branch narrowed
+    # the union. Signature: the program applies a callable to the literal nil, and the failure is
+    # specific to nil: with that argument replaced by a non-nil literal the program is accepted and
+    # passes.
+    NIL_CALL_RE = re.compile(r"(?<![A-Za-z0-9_\])}'=])\[\](?=\s+&?[a-z%][A-Za-z0-9_.?!/%]*)")
+
+    def sig_f13(self, src, mods, failure):
+        sites = [m for m in self.NIL_CALL_RE.finditer(src)]
+        if not sites:
+            return False
+        variants = []
+        for m in sites[:4]:
+            for lit in ("0", "0x00", '"s"'):
+                variants.append(src[:m.start()] + lit + src[m.end():])
+        recs = self.outcomes(variants, mods)
+        return any(r["status"] == "accepted" and not r["failure"] for r in recs)
+
+    # ---- tail-branch-never: the call site's result type drops the contribution of a branch ending
+    # in a self tail call `^`. Signature: the program has a bare self tail call, the judgement
+    # rejects, and the value inhabits the DECLARED result type of a function of the program.
+    def sig_tail_never(self, src, mods, failure):
+        if failure.get("kind") != "result-not-in-inferred-type" or not (failure.get("fnres") or failure.get("nevertop")):
+            return False
+        return re.search(r"\S\s+\^\s*[}|\n,]", strip_strings(src)) is not None
+
+    # ---- unify-recursive-tail: unify binds a type variable from the first element of a recursive
+    # argument and never checks the recursive tail. Signature (syntactic + failure): a generic
+    # function `#<..>` whose header mentions a recursive alias (one defined with `^`).
+    def sig_unify_cycle(self, src, mods, failure):
+        s0 = strip_strings(src)
+        rec_aliases = re.findall(r"'([a-z_][A-Za-z0-9_]*)\s*(?:<[^=\n]*>)?\s*=[^\n]*\^", s0)
+        if not rec_aliases:
+            return False
+        for m in re.finditer(r"#<[^{}]*\{", s0):
+            if any(re.search(r"'" + re.escape(a) + r"(?![A-Za-z0-9_])", m.group(0)) for a in rec_aliases):
+                return True
+        return False
+
+    # ---- recursive-binder (F59): a binder taken from a back-reference position keeps a Cycle that
+    # re-binds. Signature: the judgement rejects but accepts when variants of recursive types read
+    # as top; for a VM-level failure: some PREFIX of the program shows that symptom.
+    def sig_f59(self, src, mods, failure):
+        if failure.get("kind") == "result-not-in-inferred-type":
+            return bool(failure.get("lenient"))
+        recs = self.outcomes(prefixes(src)[:16], mods)
+        return any(r["status"] == "accepted" and r["failure"] and r["failure"].get("lenient") for r in recs)
 
     # F1: compile_tail_call never checks the argument. Signature: the program has a tail call, and
     # the variant in which every tail call is an ORDINARY call of a function with the same
@@ -470,15 +685,11 @@ class Classifier:
         s0 = strip_strings(src)
         if not re.search(r"#<\s*'[a-z]", s0):
             return False
-        variants = []
-        for conc in ("'int", "'bin"):
-            v = self.monomorphise(src, conc)
-            if v and v != src:
-                variants.append(v)
-        if not variants:
+        v = self.monomorphise(src, "('int | 'bin | 'ref | ())")
+        if not v or v == src:
             return False
-        recs = self.outcomes(variants, mods)
-        return all(r["status"] == "compile-error" for r in recs)
+        rec = self.outcomes([v], mods)[0]
+        return rec["status"] == "compile-error"
 
     @staticmethod
     def monomorphise(src, conc):
@@ -503,6 +714,29 @@ class Classifier:
                 seg = re.sub(re.escape(nm) + r"(?![A-Za-z0-9_])", conc, seg)
             out = out[:m.start()] + "#" + seg + out[e + 1:]
         return out
+
+    # failed-match-binder: the binders of a structured pattern that FAILED are nil-filled but keep
+    # their static type where the failure does not short-circuit (tuple field, mid-chain).
+    # Signature: some identifier of the program, observed as `[x]` right after the step that
+    # mentions it, holds nil outside its static type (and it is not a bare binder: that is F27).
+    def sig_failed_match(self, src, mods, failure):
+        steps = split_steps(src)
+        probes = []
+        for k, st in enumerate(steps):
+            if st.lstrip().startswith("'"):
+                continue
+            bare = set(self.bare_binders(st))
+            ids = [x for x in dict.fromkeys(re.findall(r"(?<![A-Za-z0-9_'.$&%#])([a-z][A-Za-z0-9_]*)(?![A-Za-z0-9_(<])", strip_strings(st))) if x not in bare]
+            for x in ids[:6]:
+                probes.append(",\n".join(steps[:k + 1] + ["[" + x + "]"]))
+        if not probes:
+            return False
+        recs = self.outcomes(probes[-24:], mods)
+        for r in recs:
+            if r["status"] == "accepted" and r["failure"] and r["failure"]["kind"] == "result-not-in-inferred-type":
+                if re.match(r"^\(t \d+ \(t 0\)\)$", (r["run"].value or "").strip()):
+                    return True
+        return False
 
     # F27: `x = e` / `e =x` with e : T | [] types x as T. Signature: the program has a bare binder
     # whose bound expression can be nil, and the variant in which that binder is replaced by a
@@ -836,7 +1070,7 @@ def run(ctx):
     batches.append(("mutated", muts))
     gstats = {}
     gens = []
-    for _ in range(ctx.n(1400, 40000)):
+    for _ in range(ctx.n(900, 40000)):
         g = c01gen.generate(ctx.rng, gstats)
         gens.append(dict(src=g["src"], origin="gen:" + (g.get("probe") or "typed"), mods=[], gen_feats=g["feats"], probe=g.get("probe")))
     batches.append(("generated", gens))
@@ -876,41 +1110,54 @@ def run(ctx):
     finding_hits = {}
     unknown = []
     reported = 0
-    # classification is by re-running variants: bound the work, most failures repeat a few shapes
-    cache = {}
+    # classification re-runs VARIANTS of the failing program on the real compiler; quick tier
+    # classifies every corpus/repository failure and a bounded sample per (origin, oracle) group
+    groups = {}
     for rec in all_failures:
         it = rec["item"]
+        origin = it.get("origin", "?")
+        g = (origin if origin.startswith(("gen:", "mutation:")) else "repo", rec["failure"]["kind"], rec["failure"].get("cls"))
+        groups.setdefault(g, []).append(rec)
+    per_group = ctx.n(3, 40)
+    chosen = []
+    for g, rs in sorted(groups.items(), key=str):
+        chosen += rs if g[0] == "repo" else rs[:per_group]
+    cov["failures_total"] = len(all_failures)
+    cov["failures_classified"] = len(chosen)
+    cache = {}
+    for rec in chosen:
+        it = rec["item"]
         key = hashlib.sha1(it["src"].encode()).hexdigest()
-        if key in cache:
-            fid = cache[key]
-        else:
-            fid = clf.classify(it["src"], it.get("mods", []), rec["failure"])
-            cache[key] = fid
-        rec["finding"] = fid
-        if fid:
-            finding_hits[fid] = finding_hits.get(fid, 0) + 1
+        if key not in cache:
+            cache[key] = clf.classify(it["src"], it.get("mods", []), rec["failure"])
+        names = cache[key]
+        rec["finding"] = names
+        if names:
+            for nm in names:
+                finding_hits[nm] = finding_hits.get(nm, 0) + 1
         else:
             unknown.append(rec)
     first_of = {}
-    for rec in all_failures:
-        fid = rec.get("finding")
-        if fid and fid not in first_of:
-            first_of[fid] = rec
-    for fid, rec in sorted(first_of.items()):
+    for rec in chosen:
+        for nm in rec.get("finding") or []:
+            if nm not in first_of or len(rec["item"]["src"]) < len(first_of[nm]["item"]["src"]):
+                first_of[nm] = rec
+    for nm, rec in sorted(first_of.items()):
         it = rec["item"]
-        ctx.violation({"kind": "impl-violation", "oracle": rec["failure"]["kind"], "finding_signature": fid,
+        ctx.violation({"kind": "impl-violation", "oracle": rec["failure"]["kind"], "finding_signature": nm,
                        "source": it["src"], "modules": it.get("mods", []), "origin": it.get("origin"),
-                       "failure": rec["failure"], "count_this_run": finding_hits[fid]}, finding_key=fid)
+                       "failure": rec["failure"], "count_this_run": finding_hits[nm]}, finding_key=FINDING_IDS.get(nm, nm))
     for rec in unknown:
         if reported >= 6:
             break
         it = rec["item"]
         small = shrink(oracle, it["src"], it.get("mods", []), rec["failure"])
-        fid = clf.classify(small, it.get("mods", []), rec["failure"]) if small != it["src"] else None
-        if fid:
-            finding_hits[fid] = finding_hits.get(fid, 0) + 1
-            ctx.violation({"kind": "impl-violation", "oracle": rec["failure"]["kind"], "finding_signature": fid,
-                           "source": small, "original": it["src"], "failure": rec["failure"]}, finding_key=fid)
+        names = clf.classify(small, it.get("mods", []), rec["failure"]) if small != it["src"] else None
+        if names:
+            for nm in names:
+                finding_hits[nm] = finding_hits.get(nm, 0) + 1
+                ctx.violation({"kind": "impl-violation", "oracle": rec["failure"]["kind"], "finding_signature": nm,
+                               "source": small, "original": it["src"], "failure": rec["failure"]}, finding_key=FINDING_IDS.get(nm, nm))
             continue
         reported += 1
         ctx.violation({"kind": "impl-violation",
@@ -938,7 +1185,7 @@ def run(ctx):
     cov["failures_unclassified"] = len(unknown)
     cov["vm_panic_list"] = oracle.panic_list[:20]
     cov["failure_list"] = [{"finding": r.get("finding"), "origin": r["item"].get("origin"), "failure": r["failure"],
-                            "source": r["item"]["src"][-400:]} for r in all_failures[:60]]
+                            "source": r["item"]["src"][-700:]} for r in (unknown + [r for r in chosen if r.get("finding")])[:60]]
     cov["inputs_per_function"] = round(st["applications"] / st["functions_applied"], 2) if st["functions_applied"] else 0
     cov["results_checked_by_inhabb"] = st["judged"]
     if not ok:
